@@ -295,10 +295,9 @@ def read_meta_image_from_fileobj(f: io.BufferedReader) -> Tuple[np.ndarray, Meta
         data.write(f.read(read))
         buffer = data.getbuffer()
 
-    image = np.frombuffer(buffer, dtype=meta["ElementType"]).reshape(shape)
+    image = np.frombuffer(buffer, dtype=meta["ElementType"]).reshape(shape).copy()
     if meta.get("BinaryDataByteOrderMSB") or meta.get("ElementByteOrderMSB"):
         image.byteswap(inplace=True)
-    image = image.copy()
 
     # remove unused metadata
     meta["ElementDataFile"] = None
